@@ -20,6 +20,7 @@ package common
 
 import (
 	"encoding/binary"
+	"errors"
 	"fmt"
 	"strings"
 	"sync"
@@ -348,15 +349,25 @@ func (bA *BitArray) ToProto() *kprotobits.BitArray {
 	}
 }
 
-// FromProto sets a protobuf BitArray to the given pointer.
-func (bA *BitArray) FromProto(protoBitArray *kprotobits.BitArray) {
+// FromProto sets a protobuf BitArray to the given pointer. The bit array comes from a peer: it is
+// rejected, and the receiver left untouched, unless it has exactly the number of elements its number
+// of bits needs.
+func (bA *BitArray) FromProto(protoBitArray *kprotobits.BitArray) error {
 	if protoBitArray == nil {
 		bA = nil
-		return
+		return nil
+	}
+
+	if protoBitArray.Bits < 0 {
+		return errors.New("negative Bits")
+	}
+	if got, exp := uint64(len(protoBitArray.Elems)), (uint64(protoBitArray.Bits)+63)/64; got != exp {
+		return fmt.Errorf("invalid number of Elems: got %d, but exp %d", got, exp)
 	}
 
 	bA.Bits = uint(protoBitArray.Bits)
 	if len(protoBitArray.Elems) > 0 {
 		bA.Elems = protoBitArray.Elems
 	}
+	return nil
 }
